@@ -48,13 +48,8 @@ ExtUnchanged(p, st, d) ==
   \A i \in 1..Len(st.ext) : st.ext[i].denom = d =>
      \E j \in 1..Len(p.ext) : /\ p.ext[j].kind = st.ext[i].kind /\ p.ext[j].id = st.ext[i].id
                               /\ LEq(p.ext[j].avail, st.ext[i].avail) /\ p.ext[j].neg = st.ext[i].neg
-(* a swap-fee gauge whose payout the code may leave out of its books: its pair has several pools and an oracle price of *)
-(* the pair is missing (the fee pull then fails after the distribution and the gauge record is not written back)          *)
-MayPayUnbooked(p, j) == LET g == p.gauges[j] IN
-  g.kind = "swap" /\ g.dep # <<>> /\ p.pools[g.pool].multi /\ ~(p.pools[g.pool].qOn /\ p.pools[g.pool].bOn)
 (* gauge k is the only thing that paid out coins of its denom in this block *)
 SolePayer(p, nd, k) ==
-  /\ \A j \in 1..Len(p.gauges) : j # k /\ p.gauges[j].denom = p.gauges[k].denom => ~MayPayUnbooked(p, j)
   /\ \A j \in 1..Len(p.gauges) : j # k /\ p.gauges[j].denom = p.gauges[k].denom => PaidBooks(p.gauges[j], nd.st.gauges[j]) = <<>>
   /\ ExtUnchanged(p, nd.st, p.gauges[k].denom)
 
@@ -211,6 +206,23 @@ PSwapNewDenomPaid(p, nd, k) == SwapPaidSome(p, nd, k) /\ nd.st.gauges[k].ddenom 
 PSwapProRata(p, nd, k) == p.gauges[k].kind = "swap" /\ ProRataChecked(p, nd, k) /\ ~LEq(TotalInflow(p, nd, p.gauges[k].denom), <<>>)
 PSwapBurn(p, nd, k) == p.gauges[k].kind = "swap" /\ nd.st.gauges[k].trig > p.gauges[k].trig /\ p.burn.num > 0
                          /\ BurnOf(p.pools[p.gauges[k].pool].coll[p.distr], p.burn) # <<>>
+(* master/child gauges with at least three child pools; ... where an unpriced child pool comes before a child pool in which a *)
+(* paid farmer holds the position that makes it eligible (an aggregation that stops at the unpriced pool would lose it)     *)
+PManyChildren(p, nd, k) == PMaster(p, nd, k) /\ Len(ChildIds(p.pools, p.gauges[k])) >= 3
+Unpriced(p, c) == PoolOk(p.pools, c) /\ ~Priced(p.pools[c])
+PUnpricedBefore(p, nd, k) ==
+  /\ PMaster(p, nd, k)
+  /\ LET g == p.gauges[k]  ids == ChildIds(p.pools, g) IN
+     \E i \in 1..Len(ids), j \in 1..Len(ids) :
+        /\ i < j /\ Unpriced(p, ids[i]) /\ PoolOk(p.pools, ids[j]) /\ Priced(p.pools[ids[j]])
+        /\ \E u \in 1..Len(p.users) : ChildPosOk(p.users[u], ids[j]) /\ Inflow(p, nd, u, g.denom) # <<>>
+PTwoUnpriced(p, nd, k) ==
+  /\ PMaster(p, nd, k)
+  /\ LET ids == ChildIds(p.pools, p.gauges[k]) IN
+     \E i \in 1..Len(ids), j \in 1..Len(ids) : i < j /\ Unpriced(p, ids[i]) /\ Unpriced(p, ids[j])
+(* a swap-fee gauge paid and booked its deposit although the fee pull failed afterwards (pair with several pools, one oracle *)
+(* price missing): the books move, the trigger count does not                                                                 *)
+PXferFailBooked(p, nd, k) == SwapPaidSome(p, nd, k) /\ p.pools[p.gauges[k].pool].multi /\ nd.st.gauges[k].trig = p.gauges[k].trig
 PMultiPaid(p, nd, k) == SwapPaidSome(p, nd, k) /\ p.pools[p.gauges[k].pool].multi
 PFeeShared(p, nd, k) == SwapPaidSome(p, nd, k) /\ \E j \in 1..Len(p.gauges) :
                           p.gauges[j].kind = "reg" /\ p.gauges[j].active /\ p.gauges[j].denom = p.gauges[k].denom
@@ -245,7 +257,10 @@ Stats == PrintT(<<"STATS", [nodes |-> NLog,
    swapBurnEpochs |-> GaugeEpochs(PSwapBurn),
    swapSharedDenomPaid |-> GaugeEpochs(PFeeShared),
    multiPoolSwapPaid |-> GaugeEpochs(PMultiPaid),
-   multiNoPriceBlocks |-> Cardinality({i \in Blocks : Nd(i).res.multiNoPrice}),
+   feePullFailedBooked |-> GaugeEpochs(PXferFailBooked),
+   masterManyChildren |-> GaugeEpochs(PManyChildren),
+   unpricedChildBeforePaid |-> GaugeEpochs(PUnpricedBefore),
+   twoUnpricedChildren |-> GaugeEpochs(PTwoUnpriced),
    govDenomChanges |-> Cardinality({i \in 1..NLog : Nd(i).a = "Gov" /\ Nd(i).st.distr # Pre(Nd(i)).distr}),
    sharedDenomEpochs |-> GaugeEpochs(PShared),
    gaugesEnded |-> GaugeEpochs(PEnded),
